@@ -324,9 +324,9 @@ def _build_model_driver(name, extract_v, driver_ml, stubs_c=None, packages=("uni
         for line in dep_out.split("\n"):
             if ":" in line and any(w.endswith(".vo") for w in line.split(":", 1)[0].split()):
                 deps += [w for w in line.split(":", 1)[1].split() if w.endswith(".vo") and not w.startswith(("Extract/", "Properties_"))]
-        missing = [d for d in deps if not os.path.exists(os.path.join(COQ, d))
-                   or os.path.getmtime(os.path.join(COQ, d)) < os.path.getmtime(os.path.join(COQ, d[:-1]))]
-        if missing:
+        # always through make (a no-op when up to date): a dependency can be stale through a file IT requires (a
+        # regenerated Gen*.v), which no look at the module's own source shows ("inconsistent assumptions" otherwise)
+        if deps:
             with Lock("coq"):
                 write_coqproject()
                 coq_make(sorted(set(deps)))
